@@ -114,7 +114,9 @@ def plan(ctx):
     else:
         ms = ["tet^^", "octa^^", "prism8^^", "cube12^^", "lshape28^", "ushape^", "frame64^", "twocubes^", "twotet^^", "cavity^", "cube3^"]
         orders = [8, 10, 12, 16, 20]
-    reps = ["P1/DP0", "DP1/DP0", "segments", "segments+swapped"]
+    # "+swapped": the first domain is stored with reversed orientation and repaired through swapped_normals (whole-grid continuous P1
+    # density - its localised space must carry the flips - and segment-wise DP1 densities)
+    reps = ["P1/DP0", "DP1/DP0", "segments", "segments+swapped", "P1/DP0+swapped"]
     return ms, orders, reps
 
 
@@ -127,7 +129,7 @@ def run(ctx):
         if not (R.is_closed_manifold(e) and R.is_consistently_oriented(e) and R.signed_volume(v, e) > 0):
             raise RuntimeError("catalogue mesh %s is not a closed outward oriented surface" % name)
         for rep in reps:
-            if rep.startswith("segments") and len(set(d.tolist())) < 2:
+            if (rep.startswith("segments") or rep.endswith("+swapped")) and len(set(d.tolist())) < 2:
                 continue
             for r in orders:
                 run_case(ctx, name, rep, r, cache)
